@@ -72,7 +72,7 @@ def native_c_batch(program, calls, timeout=300):
         if structs is None:
             structs = {n: f for n, f in program.structs.items() if not n.startswith('struct ') and all(
                 t.replace('const ', '').strip() in ('idx_t', 'seq_t', 'bool', 'int', 'double', '_Bool') for _, t in f)}
-        d = dict(func=cname.split('::')[1], ret=ret, params=params, args=args)
+        d = dict(func=cname.split('::')[1].split('#')[0], ret=ret, params=params, args=args)
         if len(item) > 2:
             d['id'] = item[2]
         reqs.append(d)
@@ -109,7 +109,7 @@ def native_c_calls(program, cname, arglist, timeout=120):
     """Run the real function on each args dict; returns outcomes (same order)."""
     so = build_so(program)
     finfo, params, ret = signature(program, cname)
-    fn = cname.split('::')[1]
+    fn = cname.split('::')[1].split('#')[0]
     structs = {n: f for n, f in program.structs.items() if not n.startswith('struct ') and all(
         t.replace('const ', '').strip() in ('idx_t', 'seq_t', 'bool', 'int', 'double', '_Bool') for _, t in f)}
     outs = [None] * len(arglist)
